@@ -60,6 +60,54 @@ type Partial struct {
 	Data        json.RawMessage   `json:"data"`
 }
 
+// FinishStage ends a multi-stage check's non-final stage: the run state and cov go
+// to path for the final stage to absorb; nothing is written to the evidence file.
+func (r *Run) FinishStage(path string, cov map[string]any) {
+	r.mu.Lock()
+	b, err := json.Marshal(cov)
+	if err != nil {
+		HarnessError("stage data not serialisable: %v", err)
+	}
+	p := Partial{Violations: r.violations, Known: r.known, KnownWhat: r.knownWhat, VioSigs: r.vioSigs, DeadlineHit: r.deadlineHit, Data: b}
+	out, _ := json.Marshal(p)
+	r.mu.Unlock()
+	if err := os.WriteFile(path, out, 0o644); err != nil {
+		HarnessError("cannot write stage result: %v", err)
+	}
+	fmt.Printf("%s %s stage: violations=%d wall=%.1fs\n", r.ID, r.Tier, p.Violations, time.Since(r.start).Seconds())
+	os.Exit(0)
+}
+
+// AbsorbStage merges an earlier stage's run state and returns its coverage map.
+func (r *Run) AbsorbStage(path string) map[string]any {
+	b, err := os.ReadFile(path)
+	if err != nil {
+		HarnessError("earlier stage left no result: %v", err)
+	}
+	var p Partial
+	if err := json.Unmarshal(b, &p); err != nil {
+		HarnessError("stage result unreadable: %v", err)
+	}
+	r.mu.Lock()
+	defer r.mu.Unlock()
+	r.violations += p.Violations
+	for k, v := range p.Known {
+		r.known[k] += v
+		r.knownWhat[k] = p.KnownWhat[k]
+	}
+	for k, v := range p.VioSigs {
+		r.vioSigs[k] += v
+	}
+	if p.DeadlineHit {
+		r.deadlineHit = true
+	}
+	var cov map[string]any
+	if err := json.Unmarshal(p.Data, &cov); err != nil {
+		HarnessError("stage coverage unreadable: %v", err)
+	}
+	return cov
+}
+
 // IsShard reports whether this process is a shard child.
 func (r *Run) IsShard() bool { return r.ShardN > 0 }
 
@@ -157,7 +205,7 @@ func New(id string) *Run {
 		fmt.Sscanf(v, "%d/%d", &r.ShardI, &r.ShardN)
 		r.maxReplays = 2
 	}
-	if r.ShardN == 0 && os.Getenv("VERIF_REPLAY") == "" {
+	if r.ShardN == 0 && os.Getenv("VERIF_REPLAY") == "" && os.Getenv("VERIF_STAGE_IN") == "" {
 		old, _ := filepath.Glob(filepath.Join(Root, "replays", id, tier+"-*.json"))
 		for _, f := range old {
 			_ = os.Remove(f)
@@ -211,9 +259,10 @@ func (r *Run) Violation(sig string, what string, replay any) bool {
 	r.replayN++
 	dir := filepath.Join(Root, "replays", r.ID)
 	_ = os.MkdirAll(dir, 0o755)
-	path := filepath.Join(dir, fmt.Sprintf("%s-%d.json", r.Tier, r.replayN))
+	stage := os.Getenv("VERIF_STAGE_NAME")
+	path := filepath.Join(dir, fmt.Sprintf("%s-%s%d.json", r.Tier, stage, r.replayN))
 	if r.ShardN > 0 {
-		path = filepath.Join(dir, fmt.Sprintf("%s-s%d-%d.json", r.Tier, r.ShardI, r.replayN))
+		path = filepath.Join(dir, fmt.Sprintf("%s-%ss%d-%d.json", r.Tier, stage, r.ShardI, r.replayN))
 	}
 	b, _ := json.MarshalIndent(map[string]any{"property": r.ID, "signature": sig, "what": what, "case": replay}, "", " ")
 	_ = os.WriteFile(path, b, 0o644)
